@@ -155,7 +155,7 @@ def xStep (d : XState) (j : Json) : XState × Json :=
     let comp := (getArr j "comp").map asNat
     let cm : Comps := { compOf := fun t => comp.getD t 0, n := getNat j "ncomp" }
     let d' : XState := { job := job, cl := cl, cm := cm, x := SysX.init job cl cm, note := [], hidden := fun _ => false }
-    (d', fullX d' [])
+    (d', fullX d' (hypChecks j job cl))
   | "round" =>
     let d := { d with note := [], mid := pMid j, before := d.x.sys.env.log.length }
     let before := d.x.sys.env.log.length
